@@ -74,6 +74,17 @@ def run_write_config(ctx, v, user, current, set_ok=True, proto_v=None, reject=No
         state[cid.name] = r
         return r
 
+    # statuses carry the type the version's response schema declares (legacy EmberStatus/EzspStatus below v14, sl_Status from v14)
+    cmds = repo.get(f"bellows.ezsp.v{pv}.commands", "COMMANDS")
+
+    def st(cmd, ok):
+        ty = list(cmds[cmd][2].values())[0]
+        fam = repo.cls(NAMED, getattr(ty, "name", "EmberStatus")).members()
+        if ok:
+            return fam.get("SUCCESS") or fam["OK"]
+        return fam.get("ERR_FATAL") or fam.get("ERROR_INVALID_CALL") or fam.get("FAIL")
+
+    es = {"SUCCESS": st("getConfigurationValue", True), "ERR_FATAL": st("getConfigurationValue", False)}
     models = [("self._protocol.SCHEMAS[conf.CONF_EZSP_CONFIG]", schema_model),
               ("self.getConfigurationValue", wrap_get),
               ("self.setConfigurationValue", lambda px, t, a, k, fr: (es["SUCCESS"] if set_ok else (reject or es["ERR_FATAL"]),)),
@@ -197,7 +208,7 @@ def r16_2(ctx):
                     for n, val, rd in sets:
                         if n in user:
                             continue
-                        if CAPACITY.search(n) and rd is not None and rd[0].value == 0 and isinstance(rd[1], int) and isinstance(val, int) and rd[1] > val:
+                        if CAPACITY.search(n) and rd is not None and rd[0].value == 0 and rd[0].name in ("SUCCESS", "OK") and isinstance(rd[1], int) and isinstance(val, int) and rd[1] > val:
                             bad.append((f"shrink:{n}", f"capacity setting {n} is lowered from the NCP's {rd[1]} to {val} although the user did not ask for it"))
                     for n, uval in user.items():
                         mine = [val for m, val, _ in sets if m == n]
